@@ -908,6 +908,9 @@ func f2(name string, nat func(float64, float64) float64, sym func(a, b *smt.Term
 }
 
 func symMax(a, b *smt.Term) *smt.Term {
+	if smt.RealMode {
+		return smt.Ite(smt.FGt(a, b), a, b)
+	}
 	// math.Max special cases: +Inf wins, NaN propagates, Max(+0,-0)=+0
 	inf := smt.FPConst(math.Inf(1))
 	nan := smt.FPConst(math.NaN())
@@ -919,6 +922,9 @@ func symMax(a, b *smt.Term) *smt.Term {
 }
 
 func symMin(a, b *smt.Term) *smt.Term {
+	if smt.RealMode {
+		return smt.Ite(smt.FLt(a, b), a, b)
+	}
 	ninf := smt.FPConst(math.Inf(-1))
 	nan := smt.FPConst(math.NaN())
 	return smt.Ite(smt.Or(smt.Eq(a, ninf), smt.Eq(b, ninf)), ninf,
@@ -930,7 +936,34 @@ func symMin(a, b *smt.Term) *smt.Term {
 
 func registerMath() {
 	f1("Abs", math.Abs, smt.FAbs)
-	f1("Sqrt", math.Sqrt, smt.FSqrt)
+	reg("math.Sqrt", func(fr *frame, args []value) value {
+		switch x := args[0].(type) {
+		case float64:
+			return math.Sqrt(x)
+		case symFloat:
+			if !smt.RealMode {
+				return mkFloat(smt.FSqrt(x.t), nil)
+			}
+			// exact reals: y with y >= 0 and y*y = x (one witness per argument term);
+			// negative arguments have no real square root (NaN): outside real mode's domain
+			p := fr.i.path
+			if p.sqrtMemo == nil {
+				p.sqrtMemo = map[int]*smt.Term{}
+			}
+			if y, ok := p.sqrtMemo[x.t.ID()]; ok {
+				return symFloat{y, nil}
+			}
+			zero := smt.FPConst(0)
+			if p.branch(smt.FLt(x.t, zero), "sqrt-negative") {
+				panic(pathAbort{kind: abortUnsupported, msg: "sqrt of a negative number under the exact-real interpretation"})
+			}
+			y := smt.Var(fmt.Sprintf("sqrt!%d", len(p.sqrtMemo)), smt.SFP)
+			p.assume(smt.And(smt.FLe(zero, y), smt.Eq(smt.FMul(y, y), x.t)))
+			p.sqrtMemo[x.t.ID()] = y
+			return symFloat{y, nil}
+		}
+		panic("math.Sqrt arg")
+	})
 	f1("Floor", math.Floor, func(a *smt.Term) *smt.Term { return smt.FRound("RTN", a) })
 	f1("Ceil", math.Ceil, func(a *smt.Term) *smt.Term { return smt.FRound("RTP", a) })
 	f1("Trunc", math.Trunc, func(a *smt.Term) *smt.Term { return smt.FRound("RTZ", a) })
@@ -967,6 +1000,9 @@ func registerMath() {
 		case float64:
 			return math.IsInf(x, sign)
 		case symFloat:
+			if smt.RealMode {
+				return false
+			}
 			switch {
 			case sign > 0:
 				return mkBool(smt.Eq(x.t, smt.FPConst(math.Inf(1))))
